@@ -119,6 +119,8 @@ mod lockable_map_impl;
 mod lockable_trait;
 mod map_like;
 mod utils;
+#[cfg(feature = "verif_hooks")]
+pub mod verif;
 
 #[cfg(test)]
 mod tests;
@@ -136,3 +138,5 @@ pub use lockable_lru_cache::LockableLruCache;
 pub use lockable_trait::Lockable;
 pub use lockpool::LockPool;
 pub use utils::never::{InfallibleUnwrap, Never};
+#[cfg(all(feature = "verif_hooks", feature = "lru"))]
+pub use utils::time::TimeProvider;
